@@ -47,6 +47,12 @@ CHECKS.update({
                     "traces (the fake client plays the part of client.OpenStream's rollback path; the second stream request "
                     "on the wire is a rig-B item).",
             "ref": "6/C08", "note": _A + "; the real client.openStreamWithRollback is not exercised by rig A", "technique": _T},
+    "C09": {"text": "Chunk.tla transcribes helpers.ChunkSlice / VBucketDiscovery.Get; TLC enumerates every (N,T) of the domain as initial "
+                    "states and checks Partition (non-empty, contiguous, ascending, disjoint, exact cover, sizes differ by <= 1) and the "
+                    "closed form; the table it prints is replayed into the real functions (every pair, every member up to a bound) and "
+                    "MonChunk.tla re-checks Partition on what the real code returned. thorough = all 1<=T<=N<=1024.",
+            "ref": "6/C09", "note": "pure function: the whole stated domain is enumerated in the thorough tier; quick uses N<=96 plus the bucket sizes in use",
+            "technique": "TLA+ transcription model-checked exhaustively (TLC) + table replay into the real function + TLC re-check of its outputs"},
     "C11": {"text": "lifecycle part of Core.tla (notifications from bus, API and re-armed timer; rebalance lock; Close up to "
                     "per-vBucket CloseStream; timers; re-open through Load/SeqNos/OpenStream; wait goroutines and finish tokens) "
                     "checked exhaustively against the bracket grammar of callbacks, one close per burst, range of the most "
